@@ -4,6 +4,75 @@ import vlib, uperlib, felib
 from vlib import run_tlc, outdir, ToolError, cargo_build
 
 
+# MC_SetsImport!Defs / Pool as text (the specification owns the structure, this is its one spelling)
+LIB_MODULE = """Lib DEFINITIONS AUTOMATIC TAGS ::= BEGIN
+Id ::= [APPLICATION 9] INTEGER (0..7)
+Handle ::= Id
+Pick ::= CHOICE { a [APPLICATION 12] BOOLEAN, b Id }
+Plain ::= BOOLEAN
+Other ::= [PRIVATE 3] BOOLEAN
+Deep ::= Other
+Far ::= Deep
+END
+"""
+MAIN_HEAD = """Main DEFINITIONS AUTOMATIC TAGS ::= BEGIN
+IMPORTS Handle, Pick, Plain, Deep, Far FROM Lib;
+Id ::= [PRIVATE 1] BOOLEAN
+Other ::= [APPLICATION 1] INTEGER (0..7)
+"""
+IMPORT_POOL = ["Handle", "Pick", "Plain", "Deep", "Id", "Other", "[1] INTEGER (0..7)", "[PRIVATE 2] BOOLEAN", "Far", "[APPLICATION 10] INTEGER (0..7)"]
+
+
+def import_family(v, d, K):
+    """MC_SetsImport: the tag of an untagged reference is decided in the module that defines the referenced type."""
+    vec = os.path.join(d, "sets_import.ndjson")
+    t = run_tlc("C16", "MC_SetsImport", "SPECIFICATION Spec\nCONSTANTS\n  W7 = 7\n  W14 = 14\n  K = %d\nINVARIANTS RefOk Emit\nCHECK_DEADLOCK FALSE\n" % K,
+                replay_to=vec, coverage=False, heap="4g")
+    if t.violation:
+        raise ToolError("MC_SetsImport: " + t.violation)
+    v.add_tlc("MC_SetsImport", t)
+    cases = vlib.read_ndjson(vec)
+    if len(cases) != t.nreplay or not cases:
+        raise ToolError("MC_SetsImport printed nothing")
+    nbad = checked = 0
+    for lib_first in (False, True):
+        sub = [c for c in cases if c["libFirst"] == lib_first]
+        for lo in range(0, len(sub), 400):
+            chunk = sub[lo:lo + 400]
+            defs = []
+            for i, c in enumerate(chunk):
+                comps = []
+                for p, s in enumerate(c["s"]):
+                    comps.append("f%d %s" % (p + 1, IMPORT_POOL[s - 1]))
+                    if c["xa"] and p + 1 == c["xa"]:
+                        comps.append("...")
+                defs.append("T%d ::= %s { %s }" % (i + 1, "SET" if c["isSet"] else "SEQUENCE", ", ".join(comps)))
+            main = MAIN_HEAD + "\n".join(defs) + "\nEND\n"
+            texts = [LIB_MODULE, main] if lib_first else [main, LIB_MODULE]
+            rows = felib.pipeline(texts, d, tag="imp_%d_%d" % (lib_first, lo))
+            if isinstance(rows, dict) or (rows and "error" in rows[0]):
+                v.violation("the front end fails on two modules with imported component types: %s" % str(rows)[:300],
+                            {"modules_in_load_order": texts, "result": rows}, "import_module_%d_%d.json" % (lib_first, lo))
+                continue
+            for r in rows:
+                m = re.match(r"T(\d+)$", r["name"])
+                if not m or (r.get("module") or "").lower() != "main":
+                    continue
+                c = chunk[int(m.group(1)) - 1]
+                got = felib.seq_consts(r["expanded"])
+                checked += 1
+                if got is None or got["write_order"] != c["order"] or got["read_order"] != c["order"]:
+                    nbad += 1
+                    if nbad <= 25:
+                        v.violation("wire order of a SET with imported component types differs from the canonical tag order: %s expected %s "
+                                    "(tags %s), macro expands to %s" % (defs[int(m.group(1)) - 1], c["order"], c["tags"], got and got["write_order"]),
+                                    {"definition": defs[int(m.group(1)) - 1], "expected": c, "got": got, "modules_in_load_order": texts},
+                                    "import_%04d.json" % nbad)
+    if checked != len(cases):
+        raise ToolError("import family incomplete: %d of %d definitions came back" % (checked, len(cases)))
+    return checked
+
+
 def run(v):
     quick = v.tier == "quick"
     d = outdir("C16")
@@ -63,6 +132,9 @@ def run(v):
     if checked != len(orders):
         raise ToolError("run-time order check incomplete: %d of %d" % (checked, len(orders)))
     v.cov["order_definitions_checked"] = checked
+    nimp = import_family(v, d, 3)
+    v.cov["import_definitions_checked"] = nimp
+    checked += nimp
 
     # ---- (ii) compiled sample: bits in wire order ----
     exe = uperlib.build_zoo(zoo, v.tier, name="zoo_sets_" + v.tier)
@@ -91,10 +163,13 @@ def run(v):
                      "position x {SET, SEQUENCE}: %d definitions; the order of write_seq/read_seq and the constants the real macro pipeline "
                      "expands to must equal WireOrder/SeqConsts (SEQUENCE: textual). A compiled sample (%d types, all permutations of %d of the "
                      "first 6 pool entries) is encoded with distinct marker values and compared bit for bit with X691!Enc in wire order. "
-                     "Non-trivial = SETs whose wire order differs from the textual order + encoded vectors." % (K, K - 1, len(orders), len(zoo), KC))
+                     "Non-trivial = SETs whose wire order differs from the textual order + encoded vectors. MC_SetsImport: %d SET/SEQUENCE definitions "
+                     "of 3 components over imported untagged aliases (one and two steps), an imported untagged CHOICE, local types of the same "
+                     "names with other tags and explicit tags, both load orders: the tag is decided in the defining module."
+                     % (K, K - 1, len(orders), len(zoo), KC, nimp))
     v.cov["samples"] = [{"asn1": felib.module_of([o["t"]])[0].splitlines()[-2], "expected_order": o["consts"]["order"], "tags": o["tags"]}
                         for o in orders[5::max(1, len(orders) // 4)][:4]] + vlib.sample_ndjson(vec, 2, v.seed)
-    v.cov["checker_cmd"] = "tlc MC_Sets; frontend pipeline (run time); zoogen + cargo build (zoo_sets); vzoo uper"
+    v.cov["checker_cmd"] = "tlc MC_Sets; tlc MC_SetsImport; frontend pipeline (run time); zoogen + cargo build (zoo_sets); vzoo uper"
     v.assumptions += ["extension additions of a SET are ordered canonically inside their group, as the property states",
                       "CHOICE components in the pool carry explicit alternative tags (automatic tagging inside an untagged CHOICE is outside this check)"]
 
